@@ -432,10 +432,15 @@ def run(repo: Repo, ctx) -> None:
         cname = cls.split('.')[-1]
         if cname in ('RollbackTransaction', 'RollbackToSavepoint',
                      'CommitTransaction'):
-            ok = any(norm(st) == 'modaliases = new_state.modaliases'
-                     for st in body) and any(
-                isinstance(st, ast.Assign) and norm(st.targets[0]) ==
-                'new_state' for st in body)
+            # role-based: some local bound in this branch is the state the
+            # transaction switched to; its .modaliases is what is reported
+            bound = {norm(st.targets[0]) for st in body
+                     if isinstance(st, ast.Assign)
+                     and isinstance(st.value, ast.Call)}
+            ok = any(isinstance(st, ast.Assign)
+                     and isinstance(st.value, ast.Attribute)
+                     and st.value.attr == 'modaliases'
+                     and norm(st.value.value) in bound for st in body)
             ctx.ob('C09.R4', f'_compile_ql_transaction:{cname}:modaliases',
                    ok, f'{cname} does not report the module aliases of the '
                    f'state it switched to', cq.loc,
